@@ -53,6 +53,10 @@ structure A where
   last : Option ℚ
   /-- ids handed to `put` so far -/
   putIds : List Int
+  /-- `packets_dropped` -/
+  dropped : Nat
+  /-- ids `put` has accepted so far -/
+  accIds : List Int
 
 def PPhase.entries : PPhase → List (QEntry ℚ)
   | .init q => [q]
@@ -122,6 +126,7 @@ structure KInv (s : KS) (a : A) : Prop where
   c1 : lookup s.shared 1 = .int a.recv
   c2 : lookup s.shared 2 = .int (if a.busy then 1 else 0)
   c3 : lookup s.shared 3 = .int a.bsz
+  c4 : lookup s.shared 4 = .int a.dropped
 
 /-! ## the abstract side: times, priorities, the departures still to come -/
 
@@ -145,7 +150,7 @@ def SrcA (pend : Option (QEntry ℚ)) (now : ℚ) : SPhase → Prop
   | .ending q => q.time = now ∧ q.prio = NORMAL
   | .done => True
 
-variable (size : Int → Nat) (rate : ℚ)
+variable (size : Int → Nat) (rate : ℚ) (ql : Option Int)
 
 /-- transmission delay -/
 def tx (id : Int) : ℚ := txDelay size rate id
@@ -177,7 +182,7 @@ def pred (a : A) (now : ℚ) : List (Int × ℚ) :=
 /-- **the LTS state a configuration stands for** -/
 def toF (a : A) (now : ℚ) : FState ℚ (PortSt ℚ) :=
   { now := now
-    dev := { byteSize := a.bytes, received := a.recv, busy := a.busy, busySize := a.bsz, avg := 0 }
+    dev := { byteSize := a.bytes, received := a.recv, dropped := a.dropped, busy := a.busy, busySize := a.bsz, avg := 0 }
     items := a.items.map (pktOf size)
     getPending := match a.port with | .W _ => true | _ => false
     handed := match a.port with | .H _ id _ => some (pktOf size id) | _ => none
@@ -199,9 +204,12 @@ structure AInv (arrivals : List (ℚ × Int)) (a : A) (now : ℚ) (outs : List (
   idle : a.port.idle = true → a.items ≠ [] → a.pend.isSome = true
   last : ∀ d, a.last = some d → d ≤ now
   due : ∀ x ∈ a.entries, now ≤ x.time
-  ghost : outs ++ pred size rate a now = departures size rate none 0 arrivals
+  /-- without a limit the departures are predictable: departed so far ++ still to come = the recurrence -/
+  ghost : ql = none → outs ++ pred size rate a now = departures size rate none 0 arrivals
   puts : arrivals.map (·.2) = a.putIds ++ a.src.ids
   nput : a.putIds.length = a.recv
+  nacc : a.accIds.length + a.dropped = a.recv
+  accnone : ql = none → a.accIds = a.putIds
 
 /-- number of kernel steps a configuration still needs -/
 def PPhase.mu : PPhase → Nat
@@ -232,15 +240,30 @@ inductive AStep : A → QEntry ℚ → A → List (Int × ℚ) → Prop
       AStep a q { a with src := .wait id rest q' } []
   /-- the last arrival: `put`, then the source returns -/
   | srcPutEnd (a : A) (q u q' : QEntry ℚ) (id : Int) (h : a.src = .wait id [] q) (hn : a.pend = none)
+      (hacc : ∀ l, ql = some l → ¬ l < a.bytes + (size id : Int))
       (hu : u.time = q.time ∧ u.prio = NORMAL) (ht : q'.time = q.time ∧ q'.prio = NORMAL) :
       AStep a q { a with src := .ending q', pend := some u, items := a.items ++ [id],
-                         bytes := a.bytes + (size id : Int), recv := a.recv + 1, putIds := a.putIds ++ [id] } []
+                         bytes := a.bytes + (size id : Int), recv := a.recv + 1, putIds := a.putIds ++ [id],
+                         accIds := a.accIds ++ [id] } []
   /-- an arrival: `put`, then the source sleeps until the next one -/
   | srcPutWait (a : A) (q u q' : QEntry ℚ) (id : Int) (gap : ℚ) (id' : Int) (rest : List (ℚ × Int))
       (h : a.src = .wait id ((gap, id') :: rest) q) (hn : a.pend = none)
+      (hacc : ∀ l, ql = some l → ¬ l < a.bytes + (size id : Int))
       (hu : u.time = q.time ∧ u.prio = NORMAL) (ht : q'.time = q.time + gap ∧ q'.prio = NORMAL) (ho : u.eid < q'.eid) :
       AStep a q { a with src := .wait id' rest q', pend := some u, items := a.items ++ [id],
-                         bytes := a.bytes + (size id : Int), recv := a.recv + 1, putIds := a.putIds ++ [id] } []
+                         bytes := a.bytes + (size id : Int), recv := a.recv + 1, putIds := a.putIds ++ [id],
+                         accIds := a.accIds ++ [id] } []
+  /-- the last arrival is refused (`byte_size + size > qlimit`): `packets_dropped += 1`, then the source returns -/
+  | srcDropEnd (a : A) (q q' : QEntry ℚ) (id : Int) (l : Int) (h : a.src = .wait id [] q) (hn : a.pend = none)
+      (hl : ql = some l) (hdrop : l < a.bytes + (size id : Int)) (ht : q'.time = q.time ∧ q'.prio = NORMAL) :
+      AStep a q { a with src := .ending q', recv := a.recv + 1, putIds := a.putIds ++ [id],
+                         dropped := a.dropped + 1 } []
+  /-- an arrival is refused: `packets_dropped += 1`, then the source sleeps until the next one -/
+  | srcDropWait (a : A) (q q' : QEntry ℚ) (id : Int) (gap : ℚ) (id' : Int) (rest : List (ℚ × Int)) (l : Int)
+      (h : a.src = .wait id ((gap, id') :: rest) q) (hn : a.pend = none)
+      (hl : ql = some l) (hdrop : l < a.bytes + (size id : Int)) (ht : q'.time = q.time + gap ∧ q'.prio = NORMAL) :
+      AStep a q { a with src := .wait id' rest q', recv := a.recv + 1, putIds := a.putIds ++ [id],
+                         dropped := a.dropped + 1 } []
   /-- the `StorePut` event is processed and nobody waits for its item (or the waiting server finds the store empty) -/
   | putIdle (a : A) (q : QEntry ℚ) (h : a.pend = some q) (hw : a.port.getQ = [] ∨ a.items = []) :
       AStep a q { a with pend := none } []
